@@ -26,6 +26,14 @@ impl TemporalCalendarIndex {
         }
     }
 
+    /// The calendar addresses buckets by 32-bit epoch seconds. Instants outside that range are
+    /// filed under the first / last bucket so that their zones stay reachable; the per-zone
+    /// temporal index, which keeps full i64 bounds, makes the exact decision.
+    #[inline]
+    pub fn clamp_ts(ts: i64) -> u64 {
+        ts.clamp(0, u32::MAX as i64) as u64
+    }
+
     #[inline]
     fn bucket_id(ts: u64, gran: TimeGranularity) -> u32 {
         let start = naive_bucket_of(ts, &gran);
